@@ -470,6 +470,18 @@ def r7(ctx):
             if any('[' in k and ' == ' in k and k.count('[') >= 2 for k in ua):
                 ok = True       # reduced at a byte mismatch between two IDs
         ctx.ob('C08.R7', fn, c, ok, 'chain ID prefix length %s' % lenv, 'reduced per part at a mismatch with the first part: %s' % ok)
+        # the prefix only shrinks from part to part: a new value is below the current one (the comparison stops at the
+        # current prefix length); a prefix that can grow again holds bytes that an earlier part does not share
+        for u in upd:
+            uv = fn.nodes[u]
+            ua = set((a[0], a[1]) for a in fn.atoms(u))
+            rk = fn.key(uv['rhs'])
+            if any(k.endswith('.empty()') or (k.isidentifier() and p_) for k, p_ in ua if '[' not in k) and \
+                    not any('[' in k and ' == ' in k and k.count('[') >= 2 for k, p_ in ua):
+                continue   # the start value taken from the first part
+            mono = ('(%s < %s)' % (rk, lenv), True) in ua or ('(%s <= %s)' % (lenv, rk), False) in ua
+            n += 1
+            ctx.ob('C08.R7', fn, u, mono, 'new chain ID prefix length %s' % rk, 'only ever smaller than the current one: %s' % mono)
     if n < 1:
         raise AnalysisBroken('C08.R7: cut of the chain ID to its common prefix not found in Message::create')
 
@@ -580,6 +592,12 @@ def r10(ctx):
 
 
 def run(ctx):
+    import rules.common as _cmm
+    ctx.rule('C08.R12', 'a mask for a 64 bit value is computed in 64 bits: where the sources of this property combine a 64 bit integer (a key) by &, | or ^ with an operand the compiler widens from 32 bits or less, that operand contains no shift or complement with a non-constant value - ~(0xff << 8*(3-len)) in int clears the whole upper half of the key (length, source, destination, command) for the last shortening', minimum=12)
+    _cmm.wide_mask_rule(ctx, 'C08.R12', lambda f: f.relfile.startswith(('src/lib/ebus/message.',)), 12)
+    import rules.common as _cmw
+    ctx.rule('C08.R11', 'a 64 bit key or time stays 64 bit: where the sources of this property call a repository function declared to return uint64_t (message and answer keys, the millisecond clock), the result is not converted implicitly to a narrower integer at the call - a key held in an unsigned int loses ID length, source, destination and command bytes and never matches a stored key again', minimum=6)
+    _cmw.wide_result_rule(ctx, 'C08.R11', lambda f: f.relfile.startswith(('src/lib/ebus/message.',)), 6)
     r9(ctx)
     r10(ctx)
     r5(ctx)
